@@ -15,8 +15,8 @@ def getTpl (method dialect : String) (nonEmpty : Bool) : Tpl :=
 end Facts
 
 /-- ASCII `strings.ToLower` / `strings.ToUpper` (non-ASCII letters are outside the modelled inputs) -/
-def toLowerAscii (s : String) : String := s.map Char.toLower
-def toUpperAscii (s : String) : String := s.map Char.toUpper
+def toLowerAscii (s : String) : String := String.ofList (s.toList.map Char.toLower)
+def toUpperAscii (s : String) : String := String.ofList (s.toList.map Char.toUpper)
 
 /-- a template after `s.apply` (lower-casing when the lowercase option is on) -/
 def Globals.tpl (g : Globals) (method : String) (arg : String := "") : String :=
